@@ -3,6 +3,7 @@
 package proj
 
 import (
+	"runtime"
 	"fmt"
 	"sort"
 	"strings"
@@ -107,6 +108,9 @@ type Project struct {
 	Module string              `json:"module"`
 	Main   Pkg                 `json:"main"`
 	World  map[string]Imported `json:"world"` // import path -> package
+	// files written to disk but not part of the model's input: they are for another platform than the host
+	// (GOOS file-name suffix or //go:build line) and must never be seen by mage
+	Foreign map[string]string `json:"-"`
 }
 
 // ---------- rendering ----------
@@ -315,6 +319,9 @@ func (p *Project) Files(repo string) map[string]string {
 			out[rel+"/"+f.Name] = RenderFile(f, imp.Name, path, false)
 		}
 	}
+	for rel, content := range p.Foreign {
+		out[rel] = content
+	}
 	return out
 }
 
@@ -337,6 +344,7 @@ type Gen struct {
 	Collisions bool // inject name collisions (C07)
 	Imports    bool // mage:import packages
 	TagShapes  bool // vary comment groups around the tag (C19)
+	Platform   bool // imported packages get host-only files (name suffix) and files for a foreign platform (C19, C11)
 }
 
 var nameParts = []string{"Build", "Test", "Deploy", "Clean", "Lint", "Run", "Gen", "Docs", "Pack", "Ship", "URL", "DBSync", "HTTPGet", "A", "Ab", "ABc", "Fmt2", "X_y"}
@@ -640,6 +648,29 @@ func (g *Gen) Generate(id int) *Project {
 			}
 			sub := &Gen{R: r, BadSigs: g.BadSigs}
 			ip := sub.genPkg(1+r.Intn(2), "lib", usedI)
+			if g.Platform && r.Chance(2, 3) {
+				// the last file becomes host-only by its name; a sibling for another platform declares a target of its own
+				// and (sometimes) the same functions again, as platform-split code does
+				last := &ip.Files[len(ip.Files)-1]
+				last.Name = strings.TrimSuffix(last.Name, ".go") + "_" + runtime.GOOS + ".go"
+				rel := strings.TrimPrefix(path, p.Module+"/")
+				body := "package " + name + "\n\nfunc ForeignOnly() {}\n"
+				if r.Bool() {
+					for _, fd := range last.Funcs {
+						if fd.Recv == nil {
+							body += "\nfunc " + fd.Name + "() {}\n"
+						}
+					}
+				}
+				if p.Foreign == nil {
+					p.Foreign = map[string]string{}
+				}
+				if r.Bool() {
+					p.Foreign[rel+"/zz_plan9.go"] = body
+				} else {
+					p.Foreign[rel+"/zz_other.go"] = "//go:build plan9 || windows\n\n" + body
+				}
+			}
 			p.World[path] = Imported{Name: name, Pkg: ip}
 			alias := aliases[r.Intn(len(aliases))]
 			tag := g.tagSpelling(alias)
@@ -677,6 +708,10 @@ func (g *Gen) Generate(id int) *Project {
 					sp2 := sp
 					if r.Bool() && alias != "" {
 						sp2.Doc, sp2.Trailing, sp2.DeclDoc, sp2.Paren = g.tagComments(1, g.tagSpelling(alias)), nil, nil, true
+					} else if r.Bool() {
+						// the same path under another alias (or as a root import) in the second file
+						alias2 := aliases[r.Intn(len(aliases))]
+						sp2.Doc, sp2.Trailing, sp2.DeclDoc, sp2.Paren = g.tagComments(1, g.tagSpelling(alias2)), nil, nil, true
 					}
 					f2.Imports = append(f2.Imports, sp2)
 				}
